@@ -31,7 +31,7 @@ ASSUMPTIONS = [
 ]
 REQUIRED = {"all": ["salted_objects", "type:WF", "type:LC", "type:LZW", "user_alphabets", "user_alphabet_switch_same_object",
                     "step_gt_1_partial_tail", "locality_windows", "wf_entropy_windows", "rejected_unknown_type",
-                    "rejected_long_window", "homopolymer_windows", "step_ge_N", "numpy_int_arguments", "windows_ge_255", "user_alphabets_with_extra_keys", "longer_than_1000"]}
+                    "rejected_long_window", "homopolymer_windows", "step_ge_N", "numpy_int_arguments", "windows_ge_255", "user_alphabets_with_extra_keys", "longer_than_1000", "one_to_one_user_alphabets", "rejected_fractional_window_beyond_N"]}
 SIZES = [2, 3, 4, 5, 6, 8, 10, 11, 12, 15, 18, 20]
 NSEQ = {"quick": 1000, "thorough": 8000}
 HI = {"quick": 40, "thorough": 150}
@@ -47,6 +47,11 @@ def cases(tier, seed):
 
 
 def user_alphabet(rng):
+    if rng.random() < 0.12:
+        letters = list(M.AA)
+        rng.shuffle(letters)
+        _forms[2] += 1
+        return dict(zip(M.AA, letters)) if rng.random() < 0.7 else {a: a for a in M.AA}       # a relabelling / the identity
     images = rng.sample(list(M.AA), rng.randint(2, 7))
     while True:
         ua = {a: rng.choice(images) for a in M.AA}
@@ -72,7 +77,8 @@ def call(obj, t, size, ua, w, s, ws, rng):
     if ua is not None:
         kw["userAlphabet"] = ua
         if rng.random() < 0.5:
-            kw["alphabetSize"] = rng.choice(SIZES)
+            # documented: the size is ignored when a user alphabet is given - whatever it is
+            kw["alphabetSize"] = rng.choice(SIZES + [7, 9, 13, 0, 1, 19, len(set(ua[a] for a in M.AA))])
     else:
         kw["alphabetSize"] = size
         if rng.random() < 0.12:
@@ -82,7 +88,7 @@ def call(obj, t, size, ua, w, s, ws, rng):
     return obj.get_linear_complexity(**kw)
 
 
-_forms = [0, 0]
+_forms = [0, 0, 0]
 
 
 def judge(case, rep, S):
@@ -91,6 +97,8 @@ def judge(case, rep, S):
     seq = case["s"]
     if rep.counters.get("size_spelled_as_string_or_float", 0) < _forms[0]:
         rep.cnt("size_spelled_as_string_or_float", _forms[0] - rep.counters.get("size_spelled_as_string_or_float", 0))
+    if rep.counters.get("one_to_one_user_alphabets", 0) < _forms[2]:
+        rep.cnt("one_to_one_user_alphabets", _forms[2] - rep.counters.get("one_to_one_user_alphabets", 0))
     if rep.counters.get("user_alphabets_with_extra_keys", 0) < _forms[1]:
         rep.cnt("user_alphabets_with_extra_keys", _forms[1] - rep.counters.get("user_alphabets_with_extra_keys", 0))
     N = len(seq)
@@ -211,6 +219,16 @@ def judge(case, rep, S):
                     rep.cnt("rejected_long_window")
                 else:
                     rep.viol("long_window_accepted", "%s with the %s window 10 on %s (N=%d) answered %r" % (t, form, seq, N, np.asarray(r).tolist()), sig={"type": t})
+    for t in ("WF", "LC", "LZW"):
+        # a window between N and N+1 is longer than the sequence too
+        wf_ = N + rng.choice([0.5, 0.999, 0.001, 0.25])
+        try:
+            r = obj.get_linear_complexity(complexityType=t, blobLen=rng.choice([wf_, np.float64(wf_)]))
+        except Exception:
+            rep.cnt("rejected_long_window")
+            rep.cnt("rejected_fractional_window_beyond_N")
+        else:
+            rep.viol("long_window_accepted", "%s with window %r on %s (N=%d) answered %r" % (t, wf_, seq, N, np.asarray(r).tolist()), sig={"type": t, "fractional": True})
     for t in ("WF", "LC", "LZW"):
         w = N + rng.choice([1, 1, 2, 5, 10, N, 10 * N])
         try:
